@@ -144,6 +144,20 @@ theorem c20_mem_alloc_confined (H' X : Heap) (R : List Nat) :
     ∀ b, b < H'.length → b ∉ R → (H' ++ X)[b]? = H'[b]? :=
   fun _ hb _ => List.getElem?_append_left hb
 
+/-- the five mutations of the property, spelled out: clone, then apply any of them (set a payload
+    byte, a CSRC entry, an extension value byte, SetExtension, DelExtension — as heap operations,
+    `applyMutM`) to the clone: the original reads, shows nil-ness and serialises as before; apply
+    it to the original instead: the clone does. -/
+theorem c20_mem_mutations (H : Heap) (p : PacketM) (hok : okPacket H p) (m : MutM) :
+    (readPacket (applyMutM (pktCloneM H p).1 (pktCloneM H p).2 m).1 p = readPacket H p ∧
+     nilsOf (applyMutM (pktCloneM H p).1 (pktCloneM H p).2 m).1 p = nilsOf H p ∧
+     pktMarshal (readPacket (applyMutM (pktCloneM H p).1 (pktCloneM H p).2 m).1 p) = pktMarshal (readPacket H p)) ∧
+    (readPacket (applyMutM (pktCloneM H p).1 p m).1 (pktCloneM H p).2 = readPacket H p ∧
+     nilsOf (applyMutM (pktCloneM H p).1 p m).1 (pktCloneM H p).2 = nilsOf H p ∧
+     pktMarshal (readPacket (applyMutM (pktCloneM H p).1 p m).1 (pktCloneM H p).2) = pktMarshal (readPacket H p)) :=
+  ⟨(c20_mem_independent H p hok _).1 (applyMutM_confined _ _ m),
+   (c20_mem_independent H p hok _).2 (applyMutM_confined _ _ m)⟩
+
 /-- the link to the value-level model: what the heap-level clone reads as is `pktClone` of what
     the original reads as -/
 theorem c20_mem_refines (H : Heap) (p : PacketM) (hok : okPacket H p) :
@@ -175,6 +189,11 @@ example : nilsOf (pktCloneM exHeap exPkt).1 (pktCloneM exHeap exPkt).2 = (false,
 example : readPacket ((pktCloneM exHeap exPkt).1.set 5 (.bytes [0x55])) (pktCloneM exHeap exPkt).2
     ≠ readPacket exHeap exPkt := by decide
 example : readPacket ((pktCloneM exHeap exPkt).1.set 5 (.bytes [0x55])) exPkt = readPacket exHeap exPkt := by decide
+/-- the five heap mutations do change the side they are applied to -/
+example : ∀ m ∈ [MutM.payloadByte 1, .csrcEntry 0, .extByte 0 0, .setExt 1 [9], .setExt 3 [9], .delExt 2],
+    readPacket (applyMutM (pktCloneM exHeap exPkt).1 (pktCloneM exHeap exPkt).2 m).1
+        (applyMutM (pktCloneM exHeap exPkt).1 (pktCloneM exHeap exPkt).2 m).2 ≠ readPacket exHeap exPkt := by
+  decide
 /-- a shallow copy (the struct assignment alone) is NOT independent: the model distinguishes -/
 example : readPacket (exHeap.set 2 (.bytes [0x55])) exPkt ≠ readPacket exHeap exPkt := by decide
 
